@@ -21,7 +21,10 @@ REQ_MEMBER = {"ListToolsResult": "tools", "ListPromptsResult": "prompts", "ListR
               "ListResourceTemplatesResult": "resourceTemplates", "ListRootsResult": "roots", "CallToolResult": "content",
               "GetPromptResult": "messages", "ReadResourceResult": "contents", "CompleteResult": "completion.values",
               "CreateMessageWithToolsResult": "content", "TextContent": "text", "ImageContent": "data",
-              "AudioContent": "data", "ToolResultContent": "content"}
+              "AudioContent": "data", "ToolResultContent": "content",
+              "CallToolResult+structured": "content", "CallToolResult+structuredArr": "content",
+              "CallToolResult+structuredMeta": "content", "CallToolResult+isError": "content",
+              "CallToolResult+structured+isError": "content"}
 
 
 def sigs_of(e, inv):
